@@ -85,14 +85,18 @@ def allUnset (f : Id → PState) (l : AList) : Bool := l.all (fun e => f e.2 = .
 def fulfil (f : Id → PState) (l : AList) (v : Val) : Id → PState :=
   fun q => if q ∈ l.map (·.2) then .val v else f q
 
+/-- `map[k] = std::move(V)` on an existing entry abandons the promise stored there: if it was not yet
+satisfied its shared state is made ready with `broken_promise` -/
+def breakOld (f : Id → PState) : Option Id → Id → PState
+  | some q => if f q = .unset then upd f q .broken else f
+  | none => f
+
 /-- the methods on a live container: new state, result, `set_value` calls performed -/
 def Seq.app (σ : Seq) : Op → Option (Seq × Res × List (Id × Val))
   | .get k p =>
       if p ∈ σ.handed then none else
-      let pr := match lookup k σ.pending with
-        | some q => if σ.promise q = .unset then upd σ.promise q .broken else σ.promise
-        | none => σ.promise
-      some ({ σ with pending := insert k p σ.pending, promise := pr, handed := p :: σ.handed }, .unit, [])
+      some ({ σ with pending := insert k p σ.pending, promise := breakOld σ.promise (lookup k σ.pending),
+                     handed := p :: σ.handed }, .unit, [])
   | .set k v _ =>
       match lookup k σ.pending with
       | none => some (σ, .unit, [])
